@@ -548,6 +548,8 @@ func (r *chunkReader) Read(p []byte) (int, error) {
 	return k, nil
 }
 
+var trailer = bytes.Repeat([]byte{0xAB}, 5000)
+
 var shapes = []string{"none", "small", "keys40", "key255", "val65535", "nonutf8", "emptykv", "key256", "val65536"}
 
 func shapeMeta(shape string, rng *rand.Rand) index.Metadata {
@@ -654,7 +656,13 @@ func streams(c Cfg, n int, seed int64, out, rankOut string) {
 							target.Insert(hx.Uid(100+rng.Intn(20)), append(amath.Vector{}, vecs[rng.Intn(c.Np)]...), shapeMeta("small", rng), lvl(rng, c.MaxLv))
 						}
 					}
-					rd := &chunkReader{b: append([]byte{}, data...), mode: rdm, rng: rng}
+					// the snapshot is followed by other bytes in the same stream: Load must stop exactly at its end
+					// (the snapshot of an empty index is the empty string and has no end marker: no trailer there)
+					tr := trailer
+					if len(pre.Live) == 0 {
+						tr = nil
+					}
+					rd := &chunkReader{b: append(append([]byte{}, data...), tr...), mode: rdm, rng: rng}
 					// marker, flushed before the load: if the process dies in Load (runaway allocation on a
 					// misread count) the check still knows which round trip it was
 					enc.Encode(sevent{Ev: "loading", Hid: hid, Hdr: hdr, Reader: rdm, Tgt: tgt, Shape: shape, Nbytes: len(data), Nitems: len(pre.Live)})
@@ -671,7 +679,7 @@ func streams(c Cfg, n int, seed int64, out, rankOut string) {
 							ev.Res = "ok"
 						}
 					}()
-					ev.Unread = len(rd.b)
+					ev.Unread = len(rd.b) - len(tr) // 0 = consumed exactly the bytes Save wrote
 					if ev.Res == "ok" {
 						st, _ := hx.Project(target, u, nil)
 						ev.St = &st
